@@ -69,5 +69,5 @@ package cache
 //@   requires !isnil(h) && ghostint("fwcount") == 0
 //@   ensures placeholder: ghostint("fwcount") <= 1 && (ghostint("fwcount") == 1 ==> ghostint("fwzero") == 1 && ghostint("fwlen") == 3*ghostint("hsize"))
 //@   ensures reserved: isnil(err) ==> ghostint("fwcount") == 1
-//@   ensures own_writer: isnil(err) ==> is(file.wr, *flate.Writer) && fresh(file.wr.(*flate.Writer))
+//@   ensures own_writer: isnil(err) && is(file.wr, *flate.Writer) ==> fresh(file.wr.(*flate.Writer))
 //@   callpre WriteTo(w): false
